@@ -50,7 +50,9 @@ RULE = ('histories of 0-10 mostly successful operations (construction with links
 COVERAGE_TARGETS = [f'rej:{k}:{r}:{e}' for k, e in (('plain', 'ValueError'), ('ref', 'ValueError'), ('nested', 'ValueError'),
                                                       ('const', 'TypeError'), ('readonly', 'TypeError'))
                     for r in ('set', 'update', 'ctxEnter')] + \
-                   ['rej:plain:setCls:ValueError', 'rej:readonly:setCls:TypeError', 'rej:plain:later:update:ValueError',
+                   ['rej:gen:set:TypeError', 'rej:gen:setCls:TypeError', 'rej:gen:update:TypeError', 'rej:gen:ctxEnter:TypeError',
+                    'update:ev:first:ValueError', 'update:ev:last:ValueError', 'update:ev:first:TypeError', 'update:ev:first:ok',
+                    'ctxEnter:ev:first:ok', 'srcSet:rejected-sync', 'rej:plain:setCls:ValueError', 'rej:readonly:setCls:TypeError', 'rej:plain:later:update:ValueError',
                     'rej:ref:later:update:ValueError', 'set:plain:linked:ValueError', 'set:ref:linked:ValueError', 'set:ref:free:ValueError',
                     'set:plain:linked:TypeError', 'set:ref:linked:TypeError']
 PROP = 'C02'
@@ -90,7 +92,7 @@ def directed():
         src = [list(r) for r in src0]
         pds = [dict(p) for p in R.STD]
         # the prior link sits on the parameter that will be attacked whenever that is possible
-        slot = {'plain': 0, 'ref': 0, 'nested': 2, 'const': 3, 'readonly': 0}[kind]
+        slot = {'plain': 0, 'ref': 0, 'nested': 2, 'const': 3, 'readonly': 0, 'gen': 0}[kind]
         if lk == 'nested':
             slot = 2
         elif slot == 2:
@@ -111,7 +113,24 @@ def directed():
             continue
         ops.append(rj)
         ops += R.probe_suffix(rng, src, 2, 2, rounds=2)
-        yield R.mk_case(PROP, src0, targets, ops)
+        yield R.mk_case(PROP, src0, targets, ops, sub=(route == 'setCls' and late))
+    # a source update whose write into a linked parameter is rejected (the rejected assignment happens under
+    # `_syncing`, inside `_sync_refs`), then the link is overridden / relinked and every source probed
+    for (lk, ref), late, after in itertools.product(list(links.items())[1:4], (False, True), ('override', 'relink', 'update')):
+        src = [list(r) for r in src0]
+        ctor, ops = [[1, R.par(1, 0)]], []
+        if late:
+            ops.append({'op': 'set', 't': 0, 'p': 0, 'rhs': ref})
+        else:
+            ctor.append([0, ref])
+        ops.append({'op': 'srcSet', 's': 0, 'i': 0 if lk != 'rx' else 1, 'v': 40, 'note': 'rejected-sync'})
+        ops.append({'op': 'srcSet', 's': 0, 'i': 0 if lk != 'rx' else 1, 'v': 3})
+        src[0][0 if lk != 'rx' else 1] = 3
+        ops.append({'override': {'op': 'set', 't': 0, 'p': 0, 'rhs': R.lit(7)},
+                    'relink': {'op': 'set', 't': 0, 'p': 0, 'rhs': R.par(1, 1)},
+                    'update': {'op': 'update', 't': 0, 'kvs': [[0, R.lit(6)]], 'form': 'kw', 'ev': 'first'}}[after])
+        ops += R.probe_suffix(rng, src, 2, 2, rounds=1)
+        yield R.mk_case(PROP, src0, [{'params': [dict(p) for p in R.STD], 'ctor': ctor}], ops)
 
 
 def cases(rng, tier, worker, nworkers):
@@ -127,4 +146,7 @@ def cases(rng, tier, worker, nworkers):
 
 
 def classify(case, impl, fail):
+    why = str(fail.get('why', ''))
+    if fail.get('kind') == 'counterexample' and 'finding:rejected-class-assignment-copies-inherited-parameter' in why:
+        return 'rejected-class-assignment-copies-inherited-parameter'
     return None
